@@ -149,6 +149,9 @@ def defects_for(fmt):
               ("undecidable-basis(mass basis and lambda_4=-0.4 and lambda_5=-0.3)", "input", lambda t: (set_entry(set_entry(t, "MINPAR", "14", "-0.4"), "MINPAR", "15", "-0.3") if massbasis(t) else None), True),
               ("mh>mH", "input", lambda t: (set_entry(set_entry(t, "MASS", "25", "600"), "MASS", "35", "300") if massbasis(t) else None), False),
               ("|sba|>1", "input", lambda t: (set_entry(t, "MINPAR", "20", "1.5") if massbasis(t) else None), False),
+              ("|sba|>1(by 1 ulp)", "input", lambda t: (set_entry(t, "MINPAR", "20", "1.0000000000000002") if massbasis(t) else None), False),
+              ("|sba|>1(by 1e-12)", "input", lambda t: (set_entry(t, "MINPAR", "20", "-1.000000000001") if massbasis(t) else None), False),
+              ("|sba|>1(by 1e-9)", "input", lambda t: (set_entry(t, "MINPAR", "20", "1.000000001") if massbasis(t) else None), False),
               ("mA<0", "input", lambda t: (set_entry(t, "MASS", "36", "-300") if massbasis(t) else None), False),
               ("mHp<0", "input", lambda t: (set_entry(t, "MASS", "37", "-300") if massbasis(t) else None), False),
               ("mh<0", "input", lambda t: (set_entry(t, "MASS", "25", "-125") if massbasis(t) else None), False),
